@@ -307,6 +307,18 @@ func (p *Project) Tree() Tree {
 	return t
 }
 
+// FindIface returns the declaration of the named interface.
+func (p *Pkg) FindIface(name string) *Iface {
+	for fi := range p.Files {
+		for ii := range p.Files[fi].Ifaces {
+			if p.Files[fi].Ifaces[ii].Name == name {
+				return &p.Files[fi].Ifaces[ii]
+			}
+		}
+	}
+	return nil
+}
+
 // AllIfaces lists interface names of a package in (file, declaration) order, honouring
 // build tags (files with a tag are included only if it is in tags).
 func (p *Pkg) AllIfaces(tags map[string]bool) []string {
